@@ -20,6 +20,7 @@ type Opts struct {
 	BigWords        bool // occasionally very long words (to cross buffer boundaries)
 	HeredocBodyPool int  // 0: all bodies; 1: only plain bodies
 	HDBias          bool // prefer here-documents at redirection sites and add redirections more often
+	HDMultiLine     bool // here-document bodies may contain expansions that span lines ($(( )) and $( ) with newlines)
 }
 
 func FullOpts() Opts {
@@ -477,6 +478,9 @@ func (g *G) hdBody(op, delim string, quoted bool) string {
 	for i := 0; i < n; i++ {
 		var line string
 		pool := 24
+		if g.O.HDMultiLine && !quoted {
+			pool = 26
+		}
 		if g.O.HeredocBodyPool == 1 {
 			pool = 4
 		}
@@ -533,6 +537,10 @@ func (g *G) hdBody(op, delim string, quoted bool) string {
 			} else {
 				line = "$x " + delim
 			}
+		case 24:
+			line = "ar $((1 +\n2)) end" // an arithmetic expansion spanning two lines
+		case 25:
+			line = "sub $(a\nb c) end" // a command substitution spanning two lines
 		case 22:
 			line = delim + "\t" // the delimiter followed by a tab is not the delimiter
 		case 23:
